@@ -195,8 +195,17 @@ def lattice_rule(ctx, p, K):
     pf = {q.holds("self.flipped"): q.text for q in paths.returns(paths.path_summaries(fm) or [])}
     okf = pf.get(False) in (PAR, f"({PAR})") and pf.get(True) in (f"~({PAR})", f"np.invert({PAR})", f"np.logical_not({PAR})") and set(pf) == {True, False}
     fa = co.lookup("flip_array")
-    pa = [q.text for q in paths.returns(paths.path_summaries(fa) or [])]
-    okf = okf and len(pa) == 1 and pa[0].startswith("__store__(np.ones(self.coordinates.shape[0]),self.flip_mask,-1)")   # (possibly reshaped to a column afterwards)
+    qa = paths.returns(paths.path_summaries(fa) or [])
+    pa = [q.text for q in qa]
+    ONES = "np.ones(self.coordinates.shape[0])"
+    via_mask = len(pa) == 1 and pa[0].startswith(f"__store__({ONES},self.flip_mask,-1)")   # (possibly reshaped to a column afterwards)
+    # or the sign written out per orientation: -1 on the odd-parity triangles, the whole array negated (or the even ones marked) when `flipped` is set
+    direct = {q.holds("self.flipped"): q.text for q in qa}
+    plain = tuple(f"__store__({ONES},{m},-1)" for m in (PAR, f"({PAR})"))
+    inverted = tuple(f"__store__({ONES},{m},-1)" for m in (f"~({PAR})", f"np.invert({PAR})", f"np.logical_not({PAR})")) + tuple(f"-{t}" for t in plain) + tuple(f"-({t})" for t in plain) + tuple(f"(-{t})" for t in plain)
+    written_out = set(direct) == {True, False} and any(direct[False].startswith(t) for t in plain) and any(direct[True].startswith(t) for t in inverted) \
+        and direct[False][len([t for t in plain if direct[False].startswith(t)][0]):] == direct[True][len([t for t in inverted if direct[True].startswith(t)][0]):]
+    okf = okf and (via_mask or written_out)
     ctx.ob(rule, f"{ab.key}:flip", okf, where=fm, node=fm.node, construct=str(txt)[:200], message="a triangle is flipped (sign -1) iff (cx + cy) is odd, the other way round when `flipped` is set")
     if not okf:
         return
@@ -293,8 +302,7 @@ def lattice_rule(ctx, p, K):
         ctx.ob("C20.neighborhood", f"{co.key}.neighborhood", None, message="cannot read the neighbour coordinate offsets of CoordinateArrayTriangles.neighborhood")
         return
     offs_nb, m_nb = r
-    rets = wire.returns_of(m_nb)
-    kwv = {k: norm_text(v) for k, v in wire.kw(rets[0].value).items()} if rets and isinstance(rets[0].value, ast.Call) else {}
+    kwv = built_kw(m_nb, co)
     ctx.ob("C20.neighborhood", f"{co.key}.neighborhood:args", kwv == {"coordinates": "np.unique(new_coordinates, axis=0)", "side_length": "self.side_length", "y_offset": "self.y_offset", "x_offset": "self.x_offset", "flipped": "self.flipped"},
            where=m_nb, node=m_nb.node, construct=str(kwv), message="the neighbourhood keeps side length, offsets and flip state and de-duplicates coordinates")
     for kind, pflip in (("normal", 1), ("flipped", -1)):
@@ -312,8 +320,7 @@ def lattice_rule(ctx, p, K):
                message=f"the neighbourhood of a {kind} lattice triangle must be itself plus its three edge-reflected neighbours (algebraic identity)")
     # selection / conversion forward the lattice parameters unchanged
     mm = co.lookup("for_indexes")
-    rets = wire.returns_of(mm)
-    kwv = {k: norm_text(v) for k, v in wire.kw(rets[0].value).items()} if rets and isinstance(rets[0].value, ast.Call) else {}
+    kwv = built_kw(mm, co)
     ctx.ob("C20.selection", mm.key, kwv == {"coordinates": "self.coordinates[indexes]", "side_length": "self.side_length", "y_offset": "self.y_offset", "x_offset": "self.x_offset", "flipped": "self.flipped"}, where=mm, node=mm.node, construct=str(kwv),
            message="selection by index must keep the selected coordinates and forward side length, offsets and flip state unchanged")
     mm = co.lookup("with_vertices")
@@ -356,6 +363,53 @@ def lattice_rule(ctx, p, K):
             v = v * pv if isinstance(pv, Poly) and isinstance(v, Poly) else None
     want = Poly.fn("sqrt", Poly.const(3)) * Poly.const(Fraction(1, 4)) * s * s
     ctx.ob("C20.lattice", mm.key, isinstance(v, Poly) and v == want and len(n_len) == 1, where=mm, node=mm.node, construct=repr(v), message=f"area must be sqrt(3)/4 * side^2 per triangle; expected {want!r} * len(self)")
+
+
+def built_kw(mm, cls) -> dict:
+    """{constructor field -> text} of the lattice object a method returns, whether it is built by calling the constructor or as a shallow copy of self whose fields are then
+    assigned (fields that are not assigned keep self's value; derived fields must be recomputed as the constructor computes them; dropping the cached values is C11's rule)"""
+    rets = wire.returns_of(mm)
+    if len(rets) != 1:
+        return {}
+    v = rets[0].value
+    if isinstance(v, ast.Call):
+        return {k: norm_text(x) for k, x in wire.kw(v).items()}
+    if not isinstance(v, ast.Name):
+        return {}
+    X = v.id
+    init = [n for n in mm.body_nodes() if isinstance(n, ast.Assign) and len(n.targets) == 1 and isinstance(n.targets[0], ast.Name) and n.targets[0].id == X]
+    if len(init) != 1 or norm_text(init[0].value) not in ("copy(self)", "copy.copy(self)"):
+        return {}
+    # the copy carries self's cached vertex / index / triangle arrays along: the selection describes the new coordinates only if every one of them is dropped
+    from .C11 import _explicit_drops, _cached_property_names, _is_cache_drop_loop
+    if not (_cached_property_names(cls) <= _explicit_drops(mm, X) or any(_is_cache_drop_loop(n, X, mm) for n in mm.body_nodes())):
+        return {}
+    ctor = cls.lookup("__init__")
+    fields = {}      # field -> the constructor parameter it stores, or the expression over parameters it is computed from
+    for n in (ctor.body_nodes() if ctor is not None else []):
+        if isinstance(n, ast.Assign) and len(n.targets) == 1 and isinstance(n.targets[0], ast.Attribute) and norm_text(n.targets[0].value) == "self":
+            fields[n.targets[0].attr] = n.value
+    out = {a: f"self.{a}" for a, e in fields.items() if isinstance(e, ast.Name) and e.id == a}
+    for n in mm.body_nodes():
+        if isinstance(n, ast.Assign):
+            for t in n.targets:
+                if isinstance(t, ast.Attribute) and isinstance(t.value, ast.Name) and t.value.id == X:
+                    a = t.attr
+                    if a in out:
+                        out[a] = norm_text(wire.inline_locals(mm, n.value))
+                    elif a in fields:
+                        # a derived field: must be the constructor's expression over the (unchanged) fields of self
+                        import copy as _c
+
+                        class P(ast.NodeTransformer):
+                            def visit_Name(self, nm):
+                                return ast.Attribute(value=ast.Name(id="self", ctx=ast.Load()), attr=nm.id, ctx=ast.Load()) if nm.id in out else nm
+                        want = norm_text(P().visit(_c.deepcopy(fields[a])))
+                        if norm_text(wire.inline_locals(mm, n.value)) != want or any(out[q] != f"self.{q}" for q in out if any(isinstance(x, ast.Name) and x.id == q for x in ast.walk(fields[a]))):
+                            return {}
+                    else:
+                        return {}
+    return out
 
 
 def containment_rule(ctx, p, K):
